@@ -111,6 +111,30 @@ def guarded(body, timeout, scenario="?"):
 
     PROGRESS["stage"] = None
     PROGRESS.pop("verdict", None)
+    # private temp root of the case: scratch directories AND the socket directories (pymp-*) that multiprocessing
+    # managers create end up in it, so that killing the managers leaves nothing under /tmp
+    import shutil
+    import tempfile
+    old_tmp, old_env = tempfile.tempdir, os.environ.get("TMPDIR")
+    root = tempfile.mkdtemp(prefix="l2b_root_")
+    tempfile.tempdir = root
+    os.environ["TMPDIR"] = root
+    try:
+        return _guarded(target, box, timeout, scenario)
+    finally:
+        tempfile.tempdir = old_tmp
+        if old_env is None:
+            os.environ.pop("TMPDIR", None)
+        else:
+            os.environ["TMPDIR"] = old_env
+        kill_descendants()
+        shutil.rmtree(root, ignore_errors=True)
+        if os.path.exists(root):
+            time.sleep(0.05)
+            shutil.rmtree(root, ignore_errors=True)
+
+
+def _guarded(target, box, timeout, scenario):
     th = threading.Thread(target=target, daemon=True, name="l2-case-body")
     th.start()
     deadline = time.time() + timeout
